@@ -124,6 +124,11 @@ class SdRunner(ScenarioRunner):
 
             sc.result = sc.sd_simulation.start(output=["frame"], start=step, until=step,equations=equations)
 
+            # make this step final for all equations of the scenario, not only for the requested ones:
+            # settings passed with a later step must not reach back into values of this step
+            for name in list(sc.model.equations.keys()):
+                sc.model.equation(name, step)
+
         return {name:scenario.result.to_dict() for name,scenario in scenario_objects.items()}
 
     #TODO this really should just take on scenario manager - it doesn't make sense to call it on multiple scenario managers. It should be called run_scenarios
